@@ -651,6 +651,13 @@ def check_line(line, impl_obs, expect):
         if st != "ok" and (ras, raddr) != (as_, addr):
             return "failed conversion modified the address: %d:%#x -> %d:%#x" % (as_, addr, ras, raddr)
     if expect not in (None, "?") and head != expect:
+        # The property fixes the outcome of a SUCCESSFUL translation (target space and address = the composition)
+        # and says a failing one "fails with a status": which failure status is returned is not part of it
+        # (the exact status is still compared with the model by the correspondence stream).
+        et = expect.split()
+        if len(t) > 1 and len(et) > 1 and t[0] == et[0] and t[1] != "ok" and et[1] != "ok" and \
+                (w[0] != "op" or (t[2] == "calls=0" and et[2] == "calls=0")):
+            return None
         return "result %r is not the composition of the selected methods: expected %r" % (head, expect)
     return None
 
